@@ -17,7 +17,7 @@
 From Coq Require Import ZArith List Bool.
 From V Require Import Base.Int Base.IO Model.TzParser Model.TzRule Model.TzLookup.
 From V Require Import Spec.TzWriter.
-From V Require Import Proofs.TzCommon Proofs.TzEval Proofs.TzGrammar Proofs.TzRoundtrip Proofs.C16.
+From V Require Import Proofs.TzCommon Proofs.TzEval Proofs.TzGrammar Proofs.TzRoundtrip Proofs.TzWriterRoundtrip Proofs.C16.
 Import ListNotations.
 Open Scope Z_scope.
 
@@ -128,6 +128,25 @@ Example C16_rule_roundtrip_inhabited :
                                     (MonthWeekday 3 5 0) (-7200) (MonthWeekday 10 5 0) (-3600))) true.
 Proof. exact rule_printable_examples. Qed.
 Print Assumptions C16_rule_roundtrip_inhabited.
+
+(* TZif files of the specification writer Spec/TzWriter.v are accepted and yield exactly the
+   transitions and types that were written: version 1 (32-bit times), and the version 2 / 3 layout
+   (minimal 32-bit block, 64-bit block with times over the whole i64 range, empty footer).
+   PARTIAL with respect to the property text: the writer emits no leap-second records, no
+   standard/wall or UT/local indicator bytes and no footer rule (a non-empty footer needs the
+   consistency of the rule with the last transition, i.e. rule evaluation, in the round trip);
+   those parts are covered by the differential run against the Python writer of gen/C16.py and
+   the system zoneinfo files only. *)
+Theorem C16_writer_roundtrip_v1_partial : forall z, zone_writable 4 z -> parse (write_tzif_v1 z) = Val (Ok z).
+Proof. exact writer_roundtrip_v1. Qed.
+Print Assumptions C16_writer_roundtrip_v1_partial.
+Theorem C16_writer_roundtrip_v23_partial : forall ver z, (ver = 50 \/ ver = 51) -> zone_writable 8 z ->
+  parse (write_tzif_v23 ver z) = Val (Ok z).
+Proof. exact writer_roundtrip_v23. Qed.
+Print Assumptions C16_writer_roundtrip_v23_partial.
+Example C16_writer_roundtrip_inhabited : zone_writable 4 example_zone_v1 /\ zone_writable 8 example_zone_v2.
+Proof. exact example_zones_writable. Qed.
+Print Assumptions C16_writer_roundtrip_inhabited.
 
 (** *** Witnesses *)
 Example C16_example_file_accepted :
